@@ -312,3 +312,5 @@ pub fn nosend(v: u8) -> NoSend { NoSend(v, core::marker::PhantomData) }
 #[derive(Debug, PartialEq)]
 pub struct SendOnly(pub u8, pub core::marker::PhantomData<core::cell::Cell<()>>);
 pub fn sendonly(v: u8) -> SendOnly { SendOnly(v, core::marker::PhantomData) }
+/// logged evaluation of a (non-block) operand or initial expression: counts once per evaluation and passes the value on
+pub fn lv<T>(id: usize, v: T) -> T { call(id, 0xA5); v }
